@@ -11,6 +11,9 @@ capacities; "reject": empty pops/tops and invalid capacities; "fault": pushes th
 The "reject" focus probes capacities 0, 2^61-1 (accepted by the checks, refused by the harness
 allocator as a request above 2^40 bytes), 2^61, 2^62, 2^63 and SIZE_MAX (rejected: the byte size
 capacity * sizeof(void*) would wrap; corpus/pqueue/capacity_byte_overflow.ops).
+
+Sparse observation mode: `obs=sparse` on the constructor line suppresses the content sweep after every
+operation (a third of the histories of every focus); `observe` prints it on demand.
 """
 import itertools
 
@@ -28,10 +31,41 @@ def pick_value(rng, mode):
     return rng.choice([2**31, 2**63, 2**64 - 1, 1000, 1001])
 
 
+def sparsify(hist, step):
+    """the same history in sparse observation mode: obs=sparse on the constructor, an `observe`
+    every `step` operations and one before the destructor"""
+    out = [hist[0] + " obs=sparse"]
+    body, last = hist[1:], []
+    if body and body[-1].split()[0].startswith("destroy"):
+        body, last = body[:-1], [hist[-1]]
+    for i, op in enumerate(body, 1):
+        out.append(op)
+        if i % step == 0:
+            out.append("observe")
+    return out + ["observe"] + last
+
+
+def mix_sparse(hists, rng=None):
+    """roughly a third of the histories in sparse mode"""
+    out = []
+    for i, h in enumerate(hists):
+        if (rng.random() < 1 / 3) if rng is not None else (i % 3 == 1):
+            out.append(sparsify(h, rng.randint(5, 15) if rng is not None else 5 + i % 11))
+        else:
+            out.append(h)
+    return out
+
+
 class PqueueGen:
     name = "pqueue"
 
     def small_scope(self, tier, focus=None):
+        return mix_sparse(self._small_scope(tier, focus))
+
+    def random(self, rng, n, tier, focus=None):
+        return mix_sparse(self._random(rng, n, tier, focus), rng)
+
+    def _small_scope(self, tier, focus=None):
         out = []
         maxlen = 6 if tier == "quick" else 8
         # values chosen so that cmp=mod has ties between distinguishable elements
@@ -68,7 +102,7 @@ class PqueueGen:
             out.append(["new cap=2 exp=1.5 cmp=mod", "push 13", "push 3", "push 27", "push 7", "destroy_cb"])
         return out
 
-    def random(self, rng, n, tier, focus=None):
+    def _random(self, rng, n, tier, focus=None):
         out = []
         for _ in range(n):
             cap = rng.choice([1, 1, 2, 3, 4, 5, 8, 16])
